@@ -61,7 +61,7 @@ def flat_gates(c, n, th, ph, check_ops):
 
 PROPS_FILES = ["P_C19", "P_C19mx"]
 PROPS_FILE = "P_C19"
-RULE = ("structural tie: the top-level instruction list of BlackBoxInitialize(...).definition must be (U, I_t, U^dagger, I_s)^r, U with "
+RULE = ("gate-list correspondence: the definition of BlackBoxInitialize, with U and U^-1 expanded into h / ucry / ucrz (and their inverses, whose angle tables must equal the contract-checked ones and whose matrices are compared with the negated-angle multiplexers for n <= 4), must equal BlackBox.bb_circuit n r inside Coq (vm_compute, list equality); structural tie: the top-level instruction list of BlackBoxInitialize(...).definition must be (U, I_t, U^dagger, I_s)^r, U with "
         "r = floor(pi sqrt(N)/4) (the property's formula, computed independently), global phase pi iff r is odd, U = H on the data "
         "qubits ; UCRY(theta) ; UCRZ(phi) on [flag, data]; contract: cos(theta_k/2) = |a_k| in [0,1] and phi_k = -2 arg a_k (premises of "
         "C19_oracle_flag), I_t = diag(-1,1) on the flag, I_s = I - 2|0..0><0..0|; direct evaluation "
